@@ -22,6 +22,7 @@ func init() {
 }
 
 func runC15(c *Ctx) {
+	c.Assumptions = append(c.Assumptions, "types.HostSet implementations return stable host slices between updates", "api.Metadata is a map[string]string compared by exact string equality")
 	c.Rule("C15.R1", "subset entries hold exactly the hosts matching their own key/values", 6)
 	c.Rule("C15.R2", "ChooseHost delegates only to {matched active entry, full set when no criteria, fallback}", 8)
 	c.Rule("C15.R3", "fallback policy switch matches the three documented policies in both builders", 6)
